@@ -677,6 +677,11 @@ StepsFor(call, h, recv, res, full) ==
   CASE call = "filter" -> FilterSteps(h, recv, res, full)
     [] call = "filter_pred" -> {x \in FilterSteps(h, recv, res, full) : x.args.mode = "pred"}
     [] call = "filter_ids"  -> {x \in FilterSteps(h, recv, res, full) : x.args.mode = "ids"}
+    \* the property's own scope: every subset x invert x axis x inplace, as an ID list and as the equivalent predicate
+    [] call = "filter_subsets" ->
+         {x \in FilterSteps(h, recv, res, TRUE) :
+            /\ x.args.ids \in SubSeqsOf(Ids(t, x.args.axis))
+            /\ (x.args.mode = "ids" /\ x.args.form = "list") \/ (full /\ x.args.mode = "pred" /\ x.args.pred = "by_id")}
     [] call = "remove_empty" ->
          {St(call, recv, res, [axis |-> ax, inplace |-> ip]) :
             ax \in {"sample", "observation", "whole"}, ip \in BOOLEAN}
